@@ -1,21 +1,21 @@
-\* the code as it is (no kind repaired): TLC exhibits the overshoot.
+\* the code before the repairs: TLC exhibits the overshoot.
 \*   tlc -config Limits_show_asis.cfg Limits.tla   (expected: Invariant NoOvershoot is violated;
-\*   shortest counterexample: conncap, n = 2, limit = 1: Check(1), Check(2), Insert(1), Insert(2);
-\*   with Kinds = {"maplimit"} and FixedKinds = {"maplimit"} the remaining one is sequential:
-\*   Check(1), AddCmp(1), Detach(1), Check(2), AddCmp(2) - the slot is freed while connection 1 is open)
+\*   shortest counterexample: n = 2, limit = 1: Check(1), Check(2), Insert(1), Insert(2))
 \* restrict Kinds to one kind to see its own counterexample (conncap, maplimit, codequota, mapquota).
 CONSTANTS
   Kinds = {"conncap", "ctrlcap", "tuncap", "maplimit", "codequota", "mapquota"}
   NS = {2, 3, 4}
   Lims = {0, 1, 2}
   NodeCounts = {1}
-  LockKeys = {"owner"}
-  Variants = {}
+  Variants = {"asis"}
+  Shape = "free"
   MaxReRel = 2
-  Slacks = {1}
-  FixedKinds = {}
+  Slacks = {1, 2}
+  Listers = 1
+  FixedKinds = {"conncap", "maplimit", "maplive", "codequota", "mapquota"}
   WithRelease = TRUE
   Emit = FALSE
+  EmitMaxN = 4
   EmitAll = FALSE
 INIT Init
 NEXT Next
